@@ -8,7 +8,8 @@
 (*    v]] (child first), file : [singles, ranges], csr2 (the code space the *)
 (*    file reports), probes : [c, ok, v] (LookupCID / Lookup), all : [c, v] *)
 (*    (All, in order), mapping : [c, v] (GetMapping / All collected)]       *)
-(* kind is "cid", "tu" (values are rune sequences), "rect-cid", "rect-tu".  *)
+(* kind is "cid", "tu" (values are rune sequences), "rect-cid", "rect-tu",   *)
+(* "wide-cid".                                                              *)
 (* Only Ref... operators (and the closed form of the lexicographic rank,    *)
 (* proved equal to LexRank in MC_CMap) are used for acceptance.             *)
 EXTENDS CMap, TraceLib
@@ -82,7 +83,19 @@ RectCaseOK(c) ==
                              ELSE [ok |-> TRUE, v |-> L[i].v] = MeaningTU(f, L[i].c)
      /\ ToSet(c.mapping) = ToSet(L)
 
-CaseOK(c) == IF c.kind \in {"cid", "tu"} THEN MapCaseOK(c) ELSE RectCaseOK(c)
+\* a cidrange over a whole 3- or 4-byte code space (kind "wide-cid", value 0): lookups at
+\* positions up to 2^31 - 1 and the beginning of the enumeration (no size: 2^32 codes)
+WideCaseOK(c) ==
+  LET f == c.file
+      L == c.all
+  IN /\ c.err = ""
+     /\ SpaceOK(c)
+     /\ \A i \in 1..Len(c.probes) : c.probes[i].v = MeaningCID(f, c.probes[i].c)
+     /\ Cardinality({L[i].c : i \in 1..Len(L)}) = Len(L)
+     /\ \A i \in 1..Len(L) : L[i].v = MeaningCID(f, L[i].c)
+
+CaseOK(c) == IF c.kind \in {"cid", "tu"} THEN MapCaseOK(c)
+             ELSE IF c.kind = "wide-cid" THEN WideCaseOK(c) ELSE RectCaseOK(c)
 
 VARIABLES i, bad, done
 vars == <<i, bad, done>>
